@@ -184,6 +184,10 @@ func TestC04(t *testing.T) {
 		o.Sugar = roll < 25
 		o.Prec = roll >= 70
 		g := cfggen.GenG(rt, o)
+		if roll >= 92 {
+			// a complete operator table: every conflict is resolved by the documented rule
+			g = cfggen.GenExpr(rt).G
+		}
 		c := &Case{G: g}
 		res := evaluate(run, c, rapid.IntRange(0, 19).Draw(rt, "real") == 0)
 		if res.known > 0 && run.Known(knownRight) {
@@ -211,6 +215,6 @@ func TestC04(t *testing.T) {
 	run.RequireClass("verdict:conflict", int64(n/20))
 	run.RequireClass("verdict:accepted", int64(n/20))
 	run.RequireClass("conflict:reduce/reduce", 5)
-	run.RequireClass("conflict:LALR-only(LR(1) is conflict-free)", 3)
-	run.RequireClass("accepted:precedence-resolved", 5)
+	run.RequireClass("conflict:LALR-only(LR(1) is conflict-free)", 10)
+	run.RequireClass("accepted:precedence-resolved", 20)
 }
